@@ -97,6 +97,10 @@ def ensure_facts(config="default", thash=None, verbose=True):
     fcntl.flock(lock, fcntl.LOCK_EX)
     try:
         if all(os.path.exists(os.path.join(d, f)) for f in expected) and os.path.exists(os.path.join(d, "OK")):
+            try:
+                os.utime(os.path.dirname(d))      # most recently *used* trees survive pruning
+            except OSError:
+                pass
             return d
         ensure_driver()
         t0 = time.time()
